@@ -36,7 +36,9 @@ impl SwiftField for Field51A {
 
         // Check for optional party identifier on first line
         if let Some(newline_pos) = input.find('\n') {
+            // a line ends with LF or CR LF, as in every other multi-line field
             let first_line = &input[..newline_pos];
+            let first_line = first_line.strip_suffix('\r').unwrap_or(first_line);
             if let Some(id) = parse_party_identifier(first_line)? {
                 party_identifier = Some(format!("/{}", id));
                 remaining = &input[newline_pos + 1..];
